@@ -441,6 +441,8 @@ class Machine:
         outer_blind = ex.no_fork
         if blind:
             ex.no_fork = True
+        elif any(isinstance(a, (Str, bool, int)) or is_ctor(a) for a in args):
+            ex.no_fork = False      # a helper of a straight-line helper that is handed something definite again (`shortcircuit_binop(l, r, "and", 1)`)
         try:
             for p_, v in zip(cb.hir["params"], args):
                 sub.bind(p_, v)
